@@ -26,7 +26,7 @@ def nontrivial(s, a, rt):
 
 def mutate(rng, s):
     # nested sends from the start state's enter callbacks at the initial trigger
-    ent = [c for c in s.cbs if c.group == "enter"]
+    ent = [c for c in s.cbs if c.group == "enter" and c.style not in ("attr", "evref")]
     evs = sorted({e for t in s.trans for e in t.events})
     if ent and evs and rng.random() < 0.4 and s.cur0 is None:
         c = rng.choice(ent)
